@@ -210,6 +210,9 @@ class ArraySet2D(_Arr):
         for rows in ("array", "arrayrow"):
             for ix in ("ss", "is", "si", "ii"):
                 out.append(dict(mode="plain", shape=(2, 2), rows=rows, index=ix))
+        # every row built from ONE template list (Array(tmpl) for each row): rows do not share storage
+        for ix in ("ss", "is", "si"):
+            out.append(dict(mode="plain", shape=(2, 2), rows="array", index=ix, template=True))
         return out
 
     def _ix(self, c, kind, name, n):
@@ -220,8 +223,14 @@ class ArraySet2D(_Arr):
         am = _arr_mod(c)
         rows, cols = cfg["shape"]
         self._vals = [[c.operand("e%d%d" % (a, b)) for b in range(cols)] for a in range(rows)]
-        mk = (lambda row: am.Array(row)) if cfg.get("rows", "array") == "array" else (lambda row: am.ArrayRow(am.Array(row)))
-        A = am.Array([mk(row) for row in self._vals])
+        if cfg.get("template"):
+            tmpl = list(self._vals[0])
+            self._vals = [list(tmpl) for _ in range(rows)]          # what the cells held before the write
+            A = am.Array([am.Array(tmpl) for _ in range(rows)])     # ... every row constructed from the same list object
+            self._tmpl, self._tmpl_copy = tmpl, list(tmpl)
+        else:
+            mk = (lambda row: am.Array(row)) if cfg.get("rows", "array") == "array" else (lambda row: am.ArrayRow(am.Array(row)))
+            A = am.Array([mk(row) for row in self._vals])
         ix = cfg.get("index", "ss")
         return type(A).__setitem__, (A, (self._ix(c, ix[0], "i", rows), self._ix(c, ix[1], "j", cols)), c.operand("v")), {}
 
@@ -243,6 +252,8 @@ class ArraySet2D(_Arr):
                 new = A.arr[a].arr[b]
                 d["V.cell[%d,%d]" % (a, b)] = Eq(c.v(new), If(And(i == a, j == b), c.v(v), c.v(e)))
                 d["V.inv[%d,%d]" % (a, b)] = c.inv(new)
+        if c.cfg.get("template"):
+            d["F.callers_list_untouched"] = len(self._tmpl) == len(self._tmpl_copy) and all(x is y for x, y in zip(self._tmpl, self._tmpl_copy))
         return d
 
 
